@@ -54,9 +54,12 @@ def buildMachine (layer : String) (toks : List String) : Option AnyMachine :=
       | none => none
     | "cts" =>
       let ivLen := if mode.startsWith "ecb" then 0 else bs
-      match (if isSpec then ctsSpec C mode iv else ctsImpl C w mode iv) with
-      | some fs => some ⟨_, ctsMachine bs fs 16 ivLen⟩
-      | none => none
+      match (if isSpec then none else ctsMemOps mode) with
+      | some ops => some ⟨_, ctsMemMachine C w iv ops 16 ivLen⟩
+      | none =>
+        match (if isSpec then ctsSpec C mode iv else ctsImpl C w mode iv) with
+        | some fs => some ⟨_, ctsMachine bs fs 16 ivLen⟩
+        | none => none
     | "toy" => some ⟨_, toyMachine h.key⟩
     | _ => none
 
